@@ -24,12 +24,13 @@ OPS = ["view:settings", "view:settings_by_index", "view:raw_settings", "view:raw
        "c2http:aes_noverify", "client_dry", "profile_text", "profile_dict", "transform_get", "transform_post",
        "transform_server", "transform_get_noreq", "transform_post_noreq", "recover_roundtrip", "iter_recover", "mutate_attempt"]
 PROBES = ["op_" + o.replace(":", "_") for o in OPS] + ["real_sample_config", "generated_config", "history_len>=10",
-                                                        "consumer_then_observe", "pair_sweep"]
+                                                        "consumer_then_observe", "pair_sweep", "pivot_config_without_domains", "sample_constructed_full",
+                                                        "sample_constructed_bare", "companion_observed_first"]
 RULE = ("systematic population: every ordered pair of the 24 operation kinds (view access, settings_map variants, derived "
         "properties, repr, C2Http with each key variant, HttpBeaconClient dry run, profile generation text/dict, "
         "transform/recover/iter_recover_http on decoders built so far, mutation attempts) followed by a final observation, "
         "on 3 generated configurations (quick) / 8 (thorough), triples in thorough on one configuration; seeded population: "
-        "histories of 1-24 operations on generated HTTP configurations and on the configurations of the 6 real HTTP/DNS samples. "
+        "histories of 1-24 operations on generated HTTP configurations (40% with extra / unknown settings), generated SMB/TCP pivot configurations (no domains) and the configurations of the 6 real HTTP/DNS samples. "
         "After every op: deep snapshot == never-used twin; op result == same op on a brand-new configuration; mapping "
         "mutation raises TypeError. non-trivial = the history builds a consumer (decoder, client or profile) and "
         "observes the configuration afterwards; distinct = distinct digest")
@@ -53,6 +54,76 @@ def sample_block(name):
         from dst.props.C08 import load_sample
         _sample_blocks[name] = BeaconConfig.from_bytes(load_sample(name), xor_keys=[b"\x69", b"\x2e", b"\xaf", b"\xcc"]).config_block
     return _sample_blocks[name]
+
+
+def pivot_block(pv) -> bytes:
+    from dst.storage import builder
+    pub = rsa_key(pv["rsa"]).publickey().export_key("DER")
+    st = [[1, "short", pv["proto"]], [2, "short", pv["port"]], [3, "int", pv["sleeptime"]], [4, "int", 1048576],
+          [5, "short", pv["jitter"]], [7, "ptr", hx(pub.ljust(256, b"\x00"))]]
+    if pv["domains_field"] == "zeros":
+        st.append([8, "ptr", "00" * 256])
+    st += [[15, "ptr", hx(pv["pipename"].encode().ljust(128, b"\x00"))], [37, "int", pv["watermark"]]]
+    st += [list(e) for e in pv["extra"]]
+    return builder.encode_settings(st, terminator=True, pad_to=4096)
+
+
+_XOR_KEYS = [b"\x69", b"\x2e", b"\xaf", b"\xcc"]
+_FRESH_REF = {}      # (sample, mode) -> parts as a brand-new PROCESS reports them (nothing else done in that process before)
+_pristine = {}       # (sample, mode) -> never-used object kept for copy.copy()
+
+
+def construct(name, mode):
+    """mode "full": extracted from the stored payload (carries PE metadata); "bare": built from the configuration block."""
+    from dissect.cobaltstrike.beacon import BeaconConfig
+    from dst.props.C08 import load_sample
+    if mode == "full":
+        return BeaconConfig.from_bytes(load_sample(name), xor_keys=_XOR_KEYS)
+    return BeaconConfig(sample_block(name))
+
+
+def pristine_copy(name, mode):
+    import copy
+    if (name, mode) not in _pristine:
+        _pristine[(name, mode)] = construct(name, mode)
+    return copy.copy(_pristine[(name, mode)])
+
+
+def _fresh_one(key):
+    import json
+    import os
+    import subprocess
+    import sys
+    name, mode = key
+    code = ("import sys, os, json\n"
+            "sys.path.insert(0, %r)\n"
+            "r = os.environ.get('VERIF_REPO')\n"
+            "if r: sys.path.insert(0, r)\n"
+            "from dst.props import C14\n"
+            "print('PARTS ' + json.dumps(C14.parts_of(C14.construct(%r, %r))))\n" % (
+                os.path.dirname(os.path.dirname(os.path.dirname(os.path.abspath(__file__)))), name, mode))
+    p = subprocess.run([sys.executable, "-c", code], capture_output=True, text=True, timeout=300)
+    line = next((ln for ln in p.stdout.splitlines() if ln.startswith("PARTS ")), None)
+    if line is None:
+        raise core.HarnessError(f"fresh-process reference for {key} failed: {p.stderr[-400:]}")
+    return json.loads(line[6:])
+
+
+def prepare(tier=None):
+    """Called once per check / replay before any run: what a brand-new process reports for each sample configuration, in
+    both construction modes. This is the only reference that state kept in process globals cannot have touched."""
+    from concurrent.futures import ThreadPoolExecutor
+    keys = [(n, m) for n in _SAMPLES for m in ("full", "bare") if (n, m) not in _FRESH_REF]
+    if keys:
+        with ThreadPoolExecutor(max_workers=12) as ex:
+            for k, v in zip(keys, ex.map(_fresh_one, keys)):
+                _FRESH_REF[k] = v
+
+
+def fresh_ref(name, mode):
+    if (name, mode) not in _FRESH_REF:
+        _FRESH_REF[(name, mode)] = _fresh_one((name, mode))
+    return _FRESH_REF[(name, mode)]
 
 
 def _sys_cfgs(tier):
@@ -86,7 +157,28 @@ def generate(rng, tier, index):
     n = rng.choice([1, 2, 3, 4, 6, 8, 12, 16, 24])
     ops = [rng.choice(OPS) for _ in range(n)]
     if rng.random() < 0.25:
-        return {"world": "H", "sample": rng.choice(_SAMPLES), "ops": ops}
+        # the object under test is either extracted from the stored payload ("full": it also carries PE metadata) or built
+        # from the bare configuration block; a companion object over the SAME bytes in the other mode lives in the process
+        # too and is looked at before or after the history
+        return {"world": "H", "sample": rng.choice(_SAMPLES), "ops": ops, "construct": rng.choice(["full", "bare"]),
+                "companion": rng.choice(["before", "after", "none"])}
+    if rng.random() < 0.15:
+        # SMB / TCP pivot beacon: no C2 domains at all (SETTING_DOMAINS present but empty), a pipe name instead
+        extra = []
+        for _ in range(rng.randint(0, 3)):
+            idx = rng.choice([rng.randint(100, 400), rng.randint(401, 65535), 29, 30, 35, 38, 39])
+            if idx in (29, 30):
+                extra.append([idx, "ptr", hx(b"%windir%\\sysnative\\rundll32.exe".ljust(64, b"\x00"))])
+            elif idx in (35, 38, 39):
+                extra.append([idx, "short", rng.choice([0, 1, 2])])
+            else:
+                extra.append([idx, rng.choice(["short", "int"]), rng.getrandbits(16)])
+        return {"world": "H", "ops": ops,
+                "pivot": {"proto": rng.choice([2, 2, 4, 16]), "port": rng.choice([445, 4444, rng.randint(1, 65535)]),
+                          "sleeptime": rng.choice([0, 10000, 60000]), "jitter": rng.choice([0, 10]),
+                          "pipename": "\\\\.\\pipe\\msagent_" + "%02x" % rng.getrandbits(8), "rsa": "rsa1024_a",
+                          "domains_field": rng.choice(["zeros", "zeros", "absent"]), "watermark": rng.getrandbits(32),
+                          "extra": [e for i, e in enumerate(extra) if e[0] not in [x[0] for x in extra[:i]]]}}
     return {"world": "H", "config": gen_config(rng, allow_uri_append=rng.random() < 0.3, allow_static_param=rng.random() < 0.5,
                                               rsa=rng.choice(["rsa1024_a", "rsa2048_a"])), "ops": ops}
 
@@ -112,6 +204,7 @@ PARTS = {
                                 bc.watermark, bc.is_trial, bc.public_key, bc.sleeptime, bc.jitter, bc.xorkey, bc.xorencoded,
                                 bc.setting_enums, bc.max_setting_enum)),
     "repr": lambda bc: repr(bc),
+    "version": lambda bc: repr((str(bc.version), bc.pe_export_stamp, bc.pe_compile_stamp, bc.architecture)),
 }
 
 
@@ -292,10 +385,17 @@ def run_op(op: str, st: State, seams) -> str:
 def execute(plan: dict) -> Result:
     from dissect.cobaltstrike.beacon import BeaconConfig
     res = Result()
+    mode = None
     if "sample" in plan:
         block = sample_block(plan["sample"])
         priv = None
+        mode = plan.get("construct", "bare")
         res.probes["real_sample_config"] += 1
+        res.probes["sample_constructed_" + mode] += 1
+    elif "pivot" in plan:
+        block = pivot_block(plan["pivot"])
+        priv = None
+        res.probes["pivot_config_without_domains"] += 1
     else:
         block = config_block(plan["config"])
         priv = rsa_key(plan["config"]["rsa"])
@@ -307,17 +407,27 @@ def execute(plan: dict) -> Result:
         histories = [plan["ops"]]
     res.cases = 0
     with LightSeams(plan.get("run_seed", "0" * 16)) as seams:
-        twin = BeaconConfig(block)
+        def new_config():
+            return pristine_copy(plan["sample"], mode) if mode == "full" else BeaconConfig(block)
+
+        companion = None
+        if mode and plan.get("companion") == "before":
+            companion = construct(plan["sample"], "bare" if mode == "full" else "full")
+            parts_of(companion)
+            res.probes["companion_observed_first"] += 1
+        twin = new_config()
         twin_snap = snapshot(twin)
         if twin_snap.startswith("OBSERVATION-FAILED"):
             raise core.HarnessError(f"cannot observe a brand-new configuration: {twin_snap}")
         try:
-            ref_parts = reference_parts(block)
+            ref_parts = fresh_ref(plan["sample"], mode) if mode else reference_parts(block)
+        except core.HarnessError:
+            raise
         except Exception as e:
             raise core.HarnessError(f"cannot observe a brand-new configuration: {e!r}")
         is_http = twin.protocol in ("http", "https") and not twin.is_trial and bool(twin.public_key)
         for hist in histories:
-            shared = State(BeaconConfig(block), priv, is_http)
+            shared = State(construct(plan["sample"], mode) if mode == "full" else BeaconConfig(block), priv, is_http)
             State.cfgplan = plan.get("config")
             built_consumer = False
             if len(hist) >= 10:
@@ -325,7 +435,7 @@ def execute(plan: dict) -> Result:
             for i, op in enumerate(hist):
                 res.cases += 1
                 res.probes["op_" + op.replace(":", "_")] += 1
-                fresh = State(BeaconConfig(block), priv, is_http)
+                fresh = State(new_config(), priv, is_http)
                 try:
                     want = run_op(op, fresh, seams)
                 except Exception as e:
@@ -376,7 +486,18 @@ def execute(plan: dict) -> Result:
                                 f"first: ..{now[k][max(0, j - 60):j + 100]!r} vs ..{ref_parts[k][max(0, j - 60):j + 100]!r}",
                                 _narrow(plan, hist[:i + 1]))
                     break
-        if snapshot(twin) != twin_snap:
+        if mode and plan.get("companion") in ("before", "after") and not res.violations:
+            other = "bare" if mode == "full" else "full"
+            companion = companion or construct(plan["sample"], other)
+            now = parts_of(companion)
+            want_c = fresh_ref(plan["sample"], other)
+            bad = [k for k in PARTS if now[k] != want_c[k]]
+            if bad:
+                res.violate(("C14", "other_object_over_same_bytes_affected", bad[0], other),
+                            f"a second configuration object over the same bytes (constructed '{other}', looked at "
+                            f"{plan['companion']} the history {histories[0][:8]}..) reports {bad[0]} = {now[bad[0]][:200]!r}; a brand-new "
+                            f"process reports {want_c[bad[0]][:200]!r}")
+        if mode is None and snapshot(twin) != twin_snap:
             raise core.HarnessError("the never-used twin changed")
     return res
 
